@@ -164,6 +164,13 @@ def streams(rng, tier):
             i = rng.randrange(len(e))
             m = bytearray(e); m[i] = rng.getrandbits(8)
             ops.append("display " + bytes(m).hex())
+    # several containers open at once with extreme announced counts, then the input ends
+    ext = [gen.head(m, n, 8) for m in (4, 5) for n in (2**64 - 1, 2**63, 2**63 - 1, 2**32)] + [gen.head(4, 3), gen.head(5, 2), b"\x9f", b"\xbf"]
+    for a in ext:
+        for b in ext:
+            for tl in (b"", b"\x01", b"\x83\x01"):
+                ops.append("display " + (a + b + tl).hex())
+            ops.append("display " + (a + b + ext[0] + b"\x01").hex())
     s1 = Stream("arbitrary-bytes", "hcore", ops, judge=judge_total, rule=RULE, nontrivial=lambda op, impl: impl not in ("-", "bad-op"))
     s2 = Stream("wellformed-notation", "hcore", tops, judge=judge_tree, rule="display of encW(tree) == notation rendered from the tree")
     dops, dmops = deep_ops(tier)
@@ -213,6 +220,14 @@ def streams(rng, tier):
             t = ("tag", 0, tg, ("bytes", W.min_width(len(bs)), bs))
             key2 = f"#R={len(TREES)}"; TREES[key2] = t
             mops.append(f"display {W.enc(t).hex()} {key2}")
+    # tags (one, two nested, a self-described-CBOR tag) directly in front of every kind of empty / one-chunk / indefinite item, alone and followed by a sibling
+    inner = [("bytesI", []), ("textI", []), ("bytesI", [(0, b"")]), ("textI", [(0, b"")]), ("bytesI", [(0, b"\x01")]), ("arrayI", []), ("mapI", []), ("array", 0, []),
+             ("map", 0, []), ("bytes", 0, b""), ("text", 0, b""), ("simple", 22), ("simple", 23), ("f16", 0x7e00), ("uint", 0, 0)]
+    for it in inner:
+        for wrap in (lambda x: ("tag", 0, 2, x), lambda x: ("tag", 0, 2, ("tag", 0, 3, x)), lambda x: ("tag", 2, 55799, x), lambda x: ("tag", 8, 2**64 - 1, x)):
+            for t in (wrap(it), ("array", 0, [wrap(it), ("uint", 0, 5)]), ("arrayI", [wrap(it), wrap(it)]), ("map", 0, [wrap(it), wrap(it)]), ("mapI", [("uint", 0, 1), wrap(it), ("uint", 0, 2), ("uint", 0, 3)])):
+                key2 = f"#R={len(TREES)}"; TREES[key2] = t
+                mops.append(f"display {W.enc(t).hex()} {key2}")
     s5 = Stream("many-items", "hcore", mops, judge=judge_tree,
                 rule="display of arrays of 100..1000 tags / empty containers / chunked strings / tag nests == the notation rendered from the tree")
     s5.shrinkable = False
